@@ -601,9 +601,12 @@ elf_find_clear(kdump_errmsg_t *err, struct kdump_shared *shared,
 	while (pls < &edp->load_sorted[edp->num_load_sorted] &&
 	       *idx >= addr_to_pfn(shared, pls->phys)) {
 		kdump_paddr_t size = ismem ? pls->memsz : pls->filesz;
-		kdump_paddr_t pfn = addr_to_pfn(shared, pls->phys + size - 1);
-		if (pfn >= *idx)
-			*idx = pfn + 1;
+		if (size) {
+			kdump_paddr_t pfn =
+				addr_to_pfn(shared, pls->phys + size - 1);
+			if (pfn >= *idx)
+				*idx = pfn + 1;
+		}
 		++pls;
 	}
 }
